@@ -99,6 +99,48 @@ def run_kani(names, repo, workdir, timeout_per=600, extra=None, jobs=None):
             "seconds": time.time() - t0, "dir": d, "target": target}
 
 
+def tree_key(repo):
+    """sha256 over everything a Kani result depends on: the library sources, the harness crate, the lock file,
+    the tool versions. A harness result is reused only under an identical key (the verifier is deterministic)."""
+    import hashlib
+    h = hashlib.sha256()
+    roots = [os.path.join(repo, d) for d in ("savefile/src", "savefile-derive/src", "savefile-abi/src")] + [os.path.join(HARNESS_SRC, "src")]
+    files = [os.path.join(repo, f) for f in ("Cargo.lock", "savefile/Cargo.toml", "savefile-derive/Cargo.toml", "savefile-abi/Cargo.toml",
+                                              "savefile/build.rs", "savefile-abi/build.rs")]
+    files += [os.path.join(HARNESS_SRC, "Cargo.toml.in"), os.path.abspath(__file__)]
+    for r in roots:
+        for dp, dn, fn in sorted(os.walk(r)):
+            dn.sort()
+            for f in sorted(fn):
+                files.append(os.path.join(dp, f))
+    for f in files:
+        try:
+            data = open(f, "rb").read()
+        except OSError:
+            data = b"<missing>"
+        h.update(f.encode() + b"\0" + hashlib.sha256(data).digest())
+    h.update(b"kani-0.68.0/cbmc-6.11.0")
+    return h.hexdigest()
+
+
+def cache_load(key):
+    p = os.path.join(CACHE, "kani-results", key + ".json")
+    try:
+        return json.load(open(p))
+    except Exception:
+        return {}
+
+
+def cache_store(key, entries):
+    d = os.path.join(CACHE, "kani-results")
+    os.makedirs(d, exist_ok=True)
+    cur = cache_load(key)
+    cur.update(entries)
+    tmp = os.path.join(d, key + ".json.tmp%d" % os.getpid())
+    json.dump(cur, open(tmp, "w"))
+    os.replace(tmp, os.path.join(d, key + ".json"))
+
+
 def run_harnesses(groups, repo, workdir, tier="quick", seed=0):
     """groups: list of harness-name prefixes or exact names (from checks.json)."""
     reg = registry()
@@ -118,19 +160,42 @@ def run_harnesses(groups, repo, workdir, tier="quick", seed=0):
     ], "functions": [], "solver_s": 0.0}
     if not names:
         return res
-    r = run_kani(names, repo, workdir)
-    res["cmd"] = r["cmd"]
-    data = r["data"]
-    if data is None:
-        tail = r["out"][-1500:]
-        kind = "build failure" if "error" in r["out"] and "could not compile" in r["out"] else "no result file"
-        res["undecided"].append("kani produced no results (%s): %s" % (kind, tail.replace("\n", " | ")))
-        return res
-    if "- Stub: alloc :: fmt :: format" not in r["out"] or "- Stub: std :: hash :: RandomState :: new" not in r["out"]:
-        res["undecided"].append("mandatory stubs not reported applied")
-    results = {x["harness_id"].split("::")[-1]: x for x in data.get("verification_results", {}).get("results", [])}
-    details = {x["harness_id"].split("::")[-1]: x["property_details"] for x in data.get("property_details", [])}
-    stats = {x["harness_id"].split("::")[-1]: (x.get("cbmc_stats") or {}) for x in data.get("cbmc", [])}
+    key = tree_key(repo)
+    res["tree_key"] = key
+    cached = {} if os.environ.get("VERIF_NO_CACHE") else cache_load(key)
+    todo = [n for n in names if n not in cached]
+    results, details, stats = {}, {}, {}
+    for n in names:
+        if n in cached:
+            results[n], details[n], stats[n] = cached[n]["result"], cached[n]["details"], cached[n]["stats"]
+    res["cached"] = [n for n in names if n in cached]
+    if todo:
+        r = run_kani(todo, repo, workdir, timeout_per=int(os.environ.get("VERIF_HARNESS_TIMEOUT", "300" if tier == "quick" else "1500")))
+        res["cmd"] = r["cmd"]
+        data = r["data"]
+        if data is None:
+            tail = r["out"][-1500:]
+            kind = "build failure" if "error" in r["out"] and "could not compile" in r["out"] else "no result file"
+            res["undecided"].append("kani produced no results (%s): %s" % (kind, tail.replace("\n", " | ")))
+            return res
+        if "- Stub: alloc :: fmt :: format" not in r["out"] or "- Stub: std :: hash :: RandomState :: new" not in r["out"]:
+            res["undecided"].append("mandatory stubs not reported applied")
+        for x in data.get("verification_results", {}).get("results", []):
+            x = dict(x)
+            x["checks"] = [c for c in x.get("checks", []) if c.get("status") not in ("Success", "Unreachable", "Satisfied", "SUCCESS", "UNREACHABLE", "SATISFIED")][:40]
+            results[x["harness_id"].split("::")[-1]] = x
+        for x in data.get("property_details", []):
+            details[x["harness_id"].split("::")[-1]] = x["property_details"]
+        for x in data.get("cbmc", []):
+            stats[x["harness_id"].split("::")[-1]] = (x.get("cbmc_stats") or {})
+        store = {}
+        for n in todo:
+            if n in results and results[n].get("status") == "Success" and (details.get(n) or {}).get("satisfied", 0) >= 1:
+                store[n] = {"result": results[n], "details": details.get(n, {}), "stats": stats.get(n, {})}
+        if store:
+            cache_store(key, store)
+    else:
+        res["cmd"] = "(all %d harness results reused from cache key %s)" % (len(names), key[:16])
     for n in names:
         h = reg[n]
         for fn in h["functions"]:
@@ -200,15 +265,17 @@ def attach_counterexample(ob, repo, workdir):
 
 
 def parse_concrete_vals(out):
-    """Extract concrete_vals from the unit test Kani prints with --concrete-playback=print."""
-    m = re.search(r"let concrete_vals: Vec<Vec<u8>> = vec!\[(.*?)\];", out, re.S)
-    if not m:
-        return None
-    vals = []
-    for vm in re.finditer(r"vec!\[([0-9,\s]*)\]", m.group(1)):
-        nums = [int(x) for x in vm.group(1).replace("\n", " ").split(",") if x.strip()]
-        vals.append(nums)
-    return vals
+    """All concrete_vals lists of the unit tests Kani prints with --concrete-playback=print (one test per
+    failed check; the same harness may have several)."""
+    res = []
+    for m in re.finditer(r"let concrete_vals: Vec<Vec<u8>> = vec!\[(.*?)\];", out, re.S):
+        vals = []
+        for vm in re.finditer(r"vec!\[([0-9,\s]*)\]", m.group(1)):
+            nums = [int(x) for x in vm.group(1).replace("\n", " ").split(",") if x.strip()]
+            vals.append(nums)
+        if vals not in res:
+            res.append(vals)
+    return res
 
 
 def build_replay(repo, d, target):
@@ -238,11 +305,16 @@ def find_counterexample(name, repo, workdir):
     if name not in reg:
         return None
     r = run_kani([name], repo, workdir, extra=["-Z", "concrete-playback", "--concrete-playback=print"], jobs=1)
-    vals = parse_concrete_vals(r["out"])
-    if vals is None:
+    cands = parse_concrete_vals(r["out"])
+    if not cands:
         return None
-    rr = replay_concrete(name, vals, repo, workdir)
-    return {"counterexample": {"harness": name, "concrete_vals": vals}, "replayed": True, "replay_result": rr}
+    last = None
+    for vals in cands[:6]:
+        rr = replay_concrete(name, vals, repo, workdir)
+        last = {"counterexample": {"harness": name, "concrete_vals": vals}, "replayed": True, "replay_result": rr}
+        if rr.get("reproduced"):
+            return last
+    return last
 
 
 if __name__ == "__main__":
